@@ -161,3 +161,41 @@ func (s *Snapshot) PathOf(c store.Cursor) string {
 	}
 	return "?"
 }
+
+// Subtree converts the subtree below (and including) a cursor into an abstract
+// node, without structural checks.
+func Subtree(c store.Cursor) *Node {
+	raw := c.Node()
+	n := &Node{Kind: KindOf(raw)}
+	switch n.Kind {
+	case KElem:
+		e := raw.(node.Element)
+		n.Space, n.Local = e.Space(), e.Local()
+		for _, ac := range c.Attributes() {
+			if a, ok := ac.Node().(node.Attribute); ok {
+				n.Attrs = append(n.Attrs, &Node{Kind: KAttr, Space: a.Space(), Local: a.Local(), Value: a.AttributeValue()})
+			}
+		}
+		for _, cc := range c.Children() {
+			n.Children = append(n.Children, Subtree(cc))
+		}
+	case KRoot:
+		for _, cc := range c.Children() {
+			n.Children = append(n.Children, Subtree(cc))
+		}
+	case KAttr:
+		a := raw.(node.Attribute)
+		n.Space, n.Local, n.Value = a.Space(), a.Local(), a.AttributeValue()
+	case KText:
+		n.Value = raw.(node.CharData).CharDataValue()
+	case KComment:
+		n.Value = raw.(node.Comment).CommentValue()
+	case KPI:
+		pi := raw.(node.ProcInst)
+		n.Target, n.Value = pi.Target(), pi.ProcInstValue()
+	case KNS:
+		ns := raw.(node.Namespace)
+		n.Local, n.Value = ns.Prefix(), ns.NamespaceValue()
+	}
+	return n
+}
